@@ -612,7 +612,44 @@ def _has_nested_priority(node):
     return False
 
 
+def _alternatives(prog):
+    """Upper estimate of the number of merged transactions the manager builds for the largest family: every
+    condition() block multiplies the alternatives of its enclosing body by its number of branches (nested blocks
+    and blocks in called methods multiply further)."""
+    mbody = {}
+    for nodes in prog["tree"]:
+        for k, n in nodes:
+            if k == "M":
+                mbody[n["id"]] = n["body"]
+
+    def alts(body, depth=0):
+        if depth > 8:
+            return 1
+        r = 1
+        for k, n in body:
+            if k == "Cond":
+                r *= sum(alts(br["body"], depth + 1) for br in n["branches"]) + (1 if n["nonblocking"] else 0)
+            elif k == "C":
+                r *= alts(mbody.get(n["m"], []), depth + 1)
+            elif k == "If":
+                for _, arm in n["arms"]:
+                    r *= alts(arm, depth + 1)
+        return r
+
+    return max([alts(n["body"]) for nodes in prog["tree"] for k, n in nodes if k == "T"] + [1])
+
+
 def generate_cond(rng, feat=None):
+    """generate_cond_once, retried until the design stays small enough to elaborate and simulate quickly (merged
+    transactions multiply with every block)."""
+    for _ in range(40):
+        prog = generate_cond_once(rng, feat)
+        if _alternatives(prog) <= 20:
+            return prog
+    return prog
+
+
+def generate_cond_once(rng, feat=None):
     """One or two condition() blocks inside a transaction or a (single- or two-caller) method; branches
     with overlapping conditions that share callees with each other and with outside transactions."""
     g = Gen(rng, feat or {})
@@ -633,20 +670,37 @@ def generate_cond(rng, feat=None):
     g.has_val = {m["id"]: bool(m.get("val")) for m in methods}
     pool = [m["id"] for m in methods]
     ncond = [0]
+    mbody = {m["id"]: [] for m in methods}
 
-    def block(depth, avoid):
+    def pick(cands, n, avoid):
+        """up to n methods whose call trees are pairwise disjoint and avoid `avoid` (no second route to one method)"""
+        out, seen = [], set(avoid)
+        cands = list(cands)
+        rng.shuffle(cands)
+        for mid in cands:
+            if len(out) < n and g.reach[mid].isdisjoint(seen):
+                out.append(mid)
+                seen |= g.reach[mid]
+        return out
+
+    def reach_of(mids):
+        r = set()
+        for mid in mids:
+            r |= g.reach[mid]
+        return r
+
+    def block(depth, avoid, pool=pool, maxb=4):
         ncond[0] += 1
         cid = f"c{ncond[0]}"
-        nb = rng.randint(1, 4)
+        nb = rng.randint(1, maxb)
         branches = []
         for k in range(nb):
             body = []
-            cands = [m for m in pool if m not in avoid]
-            for mid in rng.sample(cands, min(len(cands), rng.choice([0, 1, 1, 2]))):
+            for mid in pick(pool, rng.choice([0, 1, 1, 2]), avoid):
                 body.append(g.call(mid, None))
             if depth > 0 and rng.random() < 0.2:
-                used = {g._resolve(s["m"], []) for s in _sites(body)}
-                body.append(block(depth - 1, avoid | used))
+                used = reach_of(g._resolve(s["m"], []) for s in _sites(body))
+                body.append(block(depth - 1, avoid | used, pool=pool, maxb=maxb))
             if rng.random() < 0.25:  # a multi-bit expression as branch condition: holds iff non-zero
                 w = rng.choice([2, 3])
                 cnd = f"x:{g.inp(w)}:{rng.randint(2, (1 << w) - 1)}"
@@ -655,28 +709,59 @@ def generate_cond(rng, feat=None):
             branches.append({"bid": f"{cid}b{k}", "cond": cnd, "body": body})
         if rng.random() < 0.4:
             body = []
-            cands = [m for m in pool if m not in avoid]
-            for mid in rng.sample(cands, min(len(cands), rng.choice([0, 1]))):
+            for mid in pick(pool, rng.choice([0, 1]), avoid):
                 body.append(g.call(mid, None))
             branches.append({"bid": f"{cid}b{nb}", "cond": None, "body": body})
         return ["Cond", {"cid": cid, "nonblocking": rng.random() < 0.4, "priority": rng.random() < 0.5, "branches": branches}]
 
-    own = [m for m in pool if rng.random() < 0.25]  # called by the enclosing body itself, outside the block
+    if rng.random() < 0.45:
+        # callees with a body of their own: a pool method forwards to a leaf method, or holds a condition() block
+        # over leaf methods (leaves have no validate_arguments: known finding F11 is about validated callees)
+        leaves = []
+        for i in range(rng.randint(1, 2)):
+            ld = {"id": f"l{i}", "iw": 0, "ow": 0, "k": 0, "nonex": False, "comb": None, "single": False, "val": None,
+                  "ready": g.inp() if rng.random() < 0.8 else None, "ret": None}
+            methods.append(ld)
+            g.mdef[ld["id"]] = ld
+            g.reach[ld["id"]] = {ld["id"]}
+            g.has_val[ld["id"]] = False
+            mbody[ld["id"]] = []
+            leaves.append(ld["id"])
+        for mid in rng.sample(pool, min(len(pool), rng.choice([1, 1, 2]))):
+            if rng.random() < 0.5:
+                mbody[mid] = [g.call(rng.choice(leaves), None)]
+                g.reach[mid] |= reach_of(g._resolve(s["m"], []) for s in _sites(mbody[mid]))
+            else:
+                inner = block(0, set(), pool=leaves, maxb=2)
+                inner[1]["priority"] = False
+                mbody[mid] = [inner]
+                g.reach[mid] |= reach_of(_cond_callees(inner))
+        pool = pool + leaves
+
+    own = pick(pool, sum(rng.random() < 0.25 for _ in pool), set())  # called by the enclosing body itself, outside the block
     ebody = [g.call(mid, None) for mid in own]
-    first = block(1, set(own))
+    first = block(1, reach_of(own), pool=pool)
+    hasbody = [m for m in pool if mbody.get(m)]
+    if hasbody and rng.random() < 0.75 and not (_cond_callees(first) & set(hasbody)):
+        # make sure that some branch reaches a callee that has a body of its own
+        x = rng.choice(hasbody)
+        brs = [br for br in first[1]["branches"]
+               if g.reach[x].isdisjoint(reach_of(own) | reach_of(_cond_callees(["Cond", {"branches": [br]}])))]
+        if brs:
+            rng.choice(brs)["body"].append(g.call(x, None))
     ebody.append(first)
     if rng.random() < 0.2:
         # a second block in the same body is parallel code: it must not reach the callees of the first.
         # Two *prioritised* blocks in one body are not generated: their branch orders contradict each other in
         # the merged transactions and elaboration fails with a priority cycle (observation recorded in DESIGN.md)
-        second = block(0, set(own) | _cond_callees(first))
+        second = block(0, reach_of(own) | reach_of(_cond_callees(first)), pool=pool)
         if first[1]["priority"] or _has_nested_priority(first):
             second[1]["priority"] = False
         ebody.append(second)
     rng.shuffle(ebody)
     tree = [[], []]
     for md in methods:
-        tree[rng.randrange(2)].append(["M", {"id": md["id"], "body": []}])
+        tree[rng.randrange(2)].append(["M", {"id": md["id"], "body": mbody[md["id"]]}])
     kind = rng.choice(["T", "T", "M1", "M2", "MW1", "MW2"])
     if rng.random() < 0.14:
         kind = rng.choice(["M0", "MW0"])  # the method with the condition (or its wrapper) has no caller at all
@@ -712,8 +797,7 @@ def generate_cond(rng, feat=None):
             tree[rng.randrange(2)].append(["T", {"id": f"t{j}", "ready": g.inp() if rng.random() < 0.8 else None,
                                                  "body": [guarded(g.call(entry, None))]}])
     for j in range(rng.choice([0, 1, 1, 2])):
-        k = rng.choice([1, 1, 2])
-        body = [g.call(mid, None) for mid in rng.sample(pool, min(len(pool), k))]
+        body = [g.call(mid, None) for mid in pick(pool, rng.choice([1, 1, 2]), set())]
         tree[rng.randrange(2)].append(["T", {"id": f"o{j}", "ready": g.inp() if rng.random() < 0.8 else None, "body": body}])
     prog = {"inputs": g.inputs, "methods": methods, "aliases": [], "tree": tree, "relations": []}
     fl = Analysis(prog).shape_flags()
